@@ -171,6 +171,9 @@ func (m *MatchHTTP) handleHttp2WithPriorKnowledge(reader io.Reader, req *http.Re
 	}
 
 	framer := http2.NewFramer(io.Discard, reader)
+	// a frame that does not fit into the matching buffer can never be read completely,
+	// so do not let its length field make the framer allocate up to 16 MiB for it
+	framer.SetMaxReadFrameSize(layer4.MaxMatchingBytes)
 
 	// read the first 10 frames until we get a headers frame (skipping settings, window update & priority frames)
 	var frame http2.Frame
